@@ -126,6 +126,8 @@ class Run:
         # three-valued discipline for shape matches: when both the expectation and what was found are code, a
         # VIOLATION needs the same shape with a different slot value; a different shape is a rewrite the rule cannot
         # judge (UNRECOGNISED).  Prose expectations/findings describe a decided semantic slot and stay VIOLATIONs.
+        if strict is False:
+            return self.unknown(rule, func, node, slot, f'not a recognised form (expected {expected}; found {str(found)[:160]})')
         if strict is None and isinstance(expected, str) and isinstance(found, str):
             wn, fn = astutil.parse_expr(expected), astutil.parse_expr(found)
             if wn is not None and fn is not None and not isinstance(wn, (ast.Name, ast.Constant)):
